@@ -445,6 +445,14 @@ func runC15(w *core.W) {
 			}
 		}
 	}
+	// operators glued to what follows them, and operator pairs with nothing in between: accepted or not, ranges and reports hold
+	for gi, g := range []string{"!.5", "x == !.5", "f(!.5)", "!.5 + 1", "[!.5, !.25e1]", "a ?: b", "a ? : b", "f(x) ?: 0", "a ?: b ?: c", "-.5", "~.5", "!!.5", "a!.5", "a !.5", "a ?? .5", "a ?.5 : 1", "a ? .5:.5", "typeof.5", "$v=.5", "a.b!.c!.5",
+		"a ?. b", "a ?? ?? b", "a ! . b", "a !.\nb", "!.b", "?.b", "a ?:", "?: a"} {
+		if w.Mine(gi) {
+			run("glued-operators", []byte(g))
+			w.Count("glued_operator_cases")
+		}
+	}
 	// accepted side: programs with random layout (line breaks included), corpus, token sequences
 	cfg := gen.FullSyntax()
 	r := w.RNG("prog")
